@@ -10,6 +10,14 @@ package c08
 //     can be opened through the complete-only view), or ErrEvicted with 0 bytes;
 //   * once a handle answered ErrEvicted (or Size -1) every later call answers the same,
 //     also after the key was re-created with another tag ("never stale or foreign bytes");
+//   * the creator is the only goroutine that changes which blobs exist; after each of its
+//     Create/Delete calls has RETURNED it asks Has for every key and publishes, per key, the
+//     tag of the generation that is still there (0 = none). A handle of generation (key, tag)
+//     whose user finds another value published BEFORE it starts an operation is a handle of
+//     a blob that is already evicted or deleted, so that operation must fail with ErrEvicted
+//     / Size -1 and transfer nothing -- whatever the handle's users were doing at the moment
+//     of the eviction ("once a blob is evicted or deleted, every operation on a handle
+//     opened earlier fails with the evicted error");
 //   * the creator itself never fails: all other blobs are complete and evictable, and its
 //     own blob is incomplete (not evictable) while it writes.
 //
@@ -17,6 +25,7 @@ package c08
 // progress (an operation counter), and everything stops when the creator's script ends.
 
 import (
+	"bytes"
 	"fmt"
 	"math"
 	"runtime"
@@ -37,9 +46,10 @@ type ROp struct {
 }
 
 type StressCase struct {
-	Keys     int   `json:"keys"`      // 2..4 key names, re-used across generations
-	BlobSize int   `json:"blob_size"` // bytes per blob
-	Fit      int   `json:"fit"`       // how many blobs fit in the store (< Keys, so creating evicts)
+	Keys     int   `json:"keys"`            // 2..4 key names, re-used across generations
+	BlobSize int   `json:"blob_size"`       // bytes per blob (before scaling)
+	Scale    int   `json:"scale,omitempty"` // 0/1 = small blobs; otherwise blob size, read/write lengths and offsets are multiplied by it (long copies under the per-blob lock)
+	Fit      int   `json:"fit"`             // how many blobs fit in the store (< Keys, so creating evicts)
 	Readers  int   `json:"readers"`
 	Writers  int   `json:"writers"`
 	Rounds   int   `json:"rounds"`
@@ -55,6 +65,7 @@ func genStress(t *rapid.T) StressCase {
 		Writers:  rapid.IntRange(0, 2).Draw(t, "writers"),
 		Rounds:   rapid.IntRange(20, 120).Draw(t, "rounds"),
 	}
+	c.Scale = rapid.SampledFrom([]int{1, 1, 1, 16, 256, 2048}).Draw(t, "scale")
 	c.Fit = rapid.IntRange(1, c.Keys-1).Draw(t, "fit")
 	c.Script = rapid.SliceOfN(rapid.IntRange(0, 63), 4, 24).Draw(t, "script")
 	c.Plan = rapid.SliceOfN(rapid.Custom(func(t *rapid.T) ROp {
@@ -75,11 +86,31 @@ type stressState struct {
 	mu   sync.Mutex
 	tags map[string]map[byte]bool // every tag ever given to a key
 	fail string
+	// scale multiplies sizes, lengths and offsets of the case; size is the scaled blob size.
+	scale int
+	size  int
+	// live[i] = tag of the generation of key i that the creator knows to be in the store, 0 = none.
+	// Written only by the creator, and only AFTER the call that removed the generation returned
+	// (Delete, or a Create after which Has says the key is gone) resp. BEFORE the generation
+	// becomes visible to Open through the complete-only view (MarkComplete).
+	live []atomic.Int32
 	// evidence
 	sawEvictionAfterRead atomic.Int64
 	staleAfterRecreate   atomic.Int64
 	writerEvicted        atomic.Int64
 	readsOK              atomic.Int64
+	goneFailedCleanly    atomic.Int64 // operations on a handle already known to be evicted/deleted that answered ErrEvicted
+	heldChecked          atomic.Int64 // handles kept beyond their burst, re-checked after their generation vanished
+}
+
+// gone reports that the generation (key index, tag) is certainly no longer in the store: the
+// creator published another generation (or none) for that key. Sound under every interleaving:
+// live[ki] held `tag` from before the generation could be opened until after the call that
+// removed it returned, so a different value means the removal is complete. (If a later
+// generation of the key happens to re-use the tag the answer is "not known gone": a miss, never
+// a false alarm.)
+func (s *stressState) gone(ki int, tag byte) bool {
+	return s.live[ki].Load() != int32(tag)
 }
 
 func (s *stressState) violation(format string, a ...interface{}) {
@@ -112,22 +143,24 @@ func (s *stressState) tagKnown(key string, tag byte) bool {
 }
 
 func allEqual(b []byte, tag byte) bool {
-	for _, x := range b {
-		if x != tag {
-			return false
-		}
+	return bytes.Count(b, []byte{tag}) == len(b)
+}
+
+func head(b []byte) []byte {
+	if len(b) > 16 {
+		return b[:16]
 	}
-	return true
+	return b
 }
 
 // sticky verifies that a handle that reported eviction keeps reporting it for every call.
 func (s *stressState) sticky(f *memory.File, who, key string, tag byte) {
 	buf := make([]byte, 4)
 	if n, err := f.Read(buf); n != 0 || classify(err) != eEvicted {
-		s.violation("stale handle: read did not fail with ErrEvicted (%s, %s tag %d: Read after eviction was reported: n=%d err=%v bytes %x)", who, key, tag, n, err, buf[:n])
+		s.violation("stale handle: read did not fail with ErrEvicted (%s, %s tag %d: Read on a handle known to be evicted: n=%d err=%v bytes %x)", who, key, tag, n, err, buf[:n])
 	}
 	if n, err := f.ReadAt(buf, 0); n != 0 || classify(err) != eEvicted {
-		s.violation("stale handle: readat did not fail with ErrEvicted (%s, %s tag %d: ReadAt after eviction was reported: n=%d err=%v bytes %x)", who, key, tag, n, err, buf[:n])
+		s.violation("stale handle: readat did not fail with ErrEvicted (%s, %s tag %d: ReadAt on a handle known to be evicted: n=%d err=%v bytes %x)", who, key, tag, n, err, buf[:n])
 	}
 	if _, err := f.Seek(0, 0); classify(err) != eEvicted {
 		s.violation("stale handle: seek did not fail with ErrEvicted (%s, %s tag %d: err=%v)", who, key, tag, err)
@@ -142,16 +175,38 @@ func (s *stressState) sticky(f *memory.File, who, key string, tag byte) {
 
 func (s *stressState) reader(idx int) {
 	c := s.c
-	size := int64(c.BlobSize)
+	size := int64(s.size)
+	scale := s.scale
 	who := fmt.Sprintf("reader %d", idx)
-	buf := make([]byte, 64)
+	buf := make([]byte, 64*scale)
 	type staleH struct {
 		f   *memory.File
 		key string
 		tag byte
 	}
+	type heldH struct {
+		f   *memory.File
+		ki  int
+		key string
+		tag byte
+	}
 	var stale []staleH // handles that reported eviction, re-checked once their key exists again
+	var held []heldH   // handles that were still live when their burst ended, re-checked once their generation is gone
+	checkHeld := func() {
+		keep := held[:0]
+		for _, h := range held {
+			if s.gone(h.ki, h.tag) {
+				s.sticky(h.f, who+" (handle kept from an earlier burst; the creator saw the blob gone)", h.key, h.tag)
+				s.heldChecked.Add(1)
+			} else {
+				keep = append(keep, h)
+			}
+		}
+		held = keep
+	}
+	defer checkHeld() // the creator has finished (or somebody failed): its last publication is final
 	for iter := 0; !s.stopped() && !s.failed(); iter++ {
+		checkHeld()
 		keep := stale[:0]
 		for _, h := range stale {
 			if in, _ := s.st.Has(h.key); in {
@@ -163,7 +218,8 @@ func (s *stressState) reader(idx int) {
 			}
 		}
 		stale = keep
-		key := fmt.Sprintf("k%d", (idx+iter)%c.Keys)
+		ki := (idx + iter) % c.Keys
+		key := fmt.Sprintf("k%d", ki)
 		s.ops.Add(1)
 		f, err := s.st.ScopeComplete().Open(key)
 		if err != nil {
@@ -198,13 +254,15 @@ func (s *stressState) reader(idx int) {
 		for k := 0; k < 400 && !evicted && !s.stopped(); k++ {
 			op := c.Plan[k%len(c.Plan)]
 			s.ops.Add(1)
+			knownGone := s.gone(ki, tag) // read BEFORE the operation starts
 			switch op.K {
 			case "read", "readat":
 				at := off
 				if op.K == "readat" {
-					at = int64(op.Off) % size
+					at = (int64(op.Off) * int64(scale)) % size
 				}
-				want := int64(op.N)
+				ask := op.N * scale
+				want := int64(ask)
 				if at+want > size {
 					want = size - at
 				}
@@ -214,9 +272,9 @@ func (s *stressState) reader(idx int) {
 				var n int
 				var err error
 				if op.K == "read" {
-					n, err = f.Read(buf[:op.N])
+					n, err = f.Read(buf[:ask])
 				} else {
-					n, err = f.ReadAt(buf[:op.N], at)
+					n, err = f.ReadAt(buf[:ask], at)
 				}
 				if classify(err) == eEvicted {
 					if n != 0 {
@@ -225,12 +283,20 @@ func (s *stressState) reader(idx int) {
 					evicted = true
 					break
 				}
+				if n < 0 || n > ask {
+					s.violation("live handle: %s byte count out of range (%s, %s tag %d: asked %d: got %d err %v)", op.K, who, key, tag, ask, n, err)
+					return
+				}
 				if !allEqual(buf[:n], tag) {
-					s.violation("foreign bytes: %s through a handle of %s generation tag %d returned %x (%s, offset %d)", op.K, key, tag, buf[:n], who, at)
+					s.violation("foreign bytes: %s through a handle of %s generation tag %d returned %d bytes starting %x (%s, offset %d)", op.K, key, tag, n, head(buf[:n]), who, at)
+					return
+				}
+				if knownGone {
+					s.violation("stale handle: %s succeeded after the blob was evicted (%s, %s tag %d: the creator's Create/Delete that removed this generation had returned and Has said so before the call started; n=%d err=%v bytes %x...)", op.K, who, key, tag, n, err, head(buf[:n]))
 					return
 				}
 				if int64(n) != want {
-					s.violation("live handle: %s byte count differs from the file model (%s, %s tag %d: offset %d asked %d: got %d err %v, want %d)", op.K, who, key, tag, at, op.N, n, err, want)
+					s.violation("live handle: %s byte count differs from the file model (%s, %s tag %d: offset %d asked %d: got %d err %v, want %d)", op.K, who, key, tag, at, ask, n, err, want)
 					return
 				}
 				if op.K == "read" {
@@ -241,11 +307,15 @@ func (s *stressState) reader(idx int) {
 					s.readsOK.Add(1)
 				}
 			case "seek":
-				target := int64(op.Off) % (size + 1)
+				target := (int64(op.Off) * int64(scale)) % (size + 1)
 				pos, err := f.Seek(target, 0)
 				if classify(err) == eEvicted {
 					evicted = true
 					break
+				}
+				if knownGone {
+					s.violation("stale handle: seek succeeded after the blob was evicted (%s, %s tag %d: the creator's Create/Delete that removed this generation had returned and Has said so before the call started; Seek(%d,0) = %d err %v)", who, key, tag, target, pos, err)
+					return
 				}
 				if pos != target {
 					s.violation("live handle: Seek result differs from the file model (%s, %s tag %d: Seek(%d,0) = %d err %v)", who, key, tag, target, pos, err)
@@ -258,10 +328,17 @@ func (s *stressState) reader(idx int) {
 					evicted = true
 					break
 				}
+				if knownGone {
+					s.violation("stale handle: Size did not report eviction after the blob was evicted (%s, %s tag %d: the creator's Create/Delete that removed this generation had returned and Has said so before the call started; Size() = %d, want -1)", who, key, tag, sz)
+					return
+				}
 				if sz != size {
 					s.violation("live handle: Size differs from the bytes written (%s, %s tag %d: %d, want %d)", who, key, tag, sz, size)
 					return
 				}
+			}
+			if knownGone && evicted {
+				s.goneFailedCleanly.Add(1)
 			}
 		}
 		if evicted {
@@ -272,6 +349,8 @@ func (s *stressState) reader(idx int) {
 			if len(stale) < 8 {
 				stale = append(stale, staleH{f, key, tag})
 			}
+		} else if len(held) < 8 {
+			held = append(held, heldH{f, ki, key, tag})
 		}
 	}
 }
@@ -280,8 +359,11 @@ func (s *stressState) writer(idx int) {
 	c := s.c
 	who := fmt.Sprintf("writer %d", idx)
 	one := make([]byte, 1)
+	scale := s.scale
+	payload := make([]byte, 3*scale)
 	for iter := 0; !s.stopped() && !s.failed(); iter++ {
-		key := fmt.Sprintf("k%d", (idx+2*iter+1)%c.Keys)
+		ki := (idx + 2*iter + 1) % c.Keys
+		key := fmt.Sprintf("k%d", ki)
 		s.ops.Add(1)
 		f, err := s.st.ScopeComplete().Open(key)
 		if err != nil {
@@ -293,22 +375,36 @@ func (s *stressState) writer(idx int) {
 			continue
 		}
 		tag := one[0]
-		payload := []byte{tag, tag, tag}
+		if !s.tagKnown(key, tag) {
+			s.violation("foreign bytes: handle of %s delivered tag %d which no generation of that key ever had (%s)", key, tag, who)
+			return
+		}
+		for i := range payload {
+			payload[i] = tag
+		}
 		for k := 0; k < 200 && !s.stopped(); k++ {
 			s.ops.Add(1)
-			ln := 1 + k%3
-			if ln > c.BlobSize {
-				ln = c.BlobSize
+			ln := (1 + k%3) * scale
+			if ln > s.size {
+				ln = s.size
 			}
-			off := int64((k * 5) % (c.BlobSize - ln + 1))
+			off := int64((k * 5 * scale) % (s.size - ln + 1))
+			knownGone := s.gone(ki, tag)           // read BEFORE the operation starts
 			n, err := f.WriteAt(payload[:ln], off) // same bytes, inside the extent: content stays all-tag
 			if classify(err) == eEvicted {
 				if n != 0 {
 					s.violation("stale handle: writeat transferred bytes (%s, %s tag %d: n=%d with ErrEvicted)", who, key, tag, n)
 				}
 				s.writerEvicted.Add(1)
+				if knownGone {
+					s.goneFailedCleanly.Add(1)
+				}
 				s.sticky(f, who, key, tag)
 				break
+			}
+			if knownGone {
+				s.violation("stale handle: writeat succeeded after the blob was evicted (%s, %s tag %d: the creator's Create/Delete that removed this generation had returned and Has said so before the call started; len %d off %d: n=%d err=%v)", who, key, tag, ln, off, n, err)
+				return
 			}
 			if n != ln || err != nil {
 				s.violation("live handle: WriteAt byte count differs from the file model (%s, %s tag %d: len %d off %d: n=%d err=%v)", who, key, tag, ln, off, n, err)
@@ -323,12 +419,16 @@ func (s *stressState) creator() {
 	nextTag := 0
 	for round := 0; round < c.Rounds && !s.failed(); round++ {
 		v := c.Script[round%len(c.Script)]
-		key := fmt.Sprintf("k%d", v%c.Keys)
+		ki := v % c.Keys
+		key := fmt.Sprintf("k%d", ki)
 		if (v/c.Keys)%4 == 0 {
-			if err := s.st.Delete(key); err != nil && classify(err) != eNotExist {
+			err := s.st.Delete(key)
+			if err != nil && classify(err) != eNotExist {
 				s.violation("Delete result differs from the model (creator round %d: Delete(%s): %v)", round, key, err)
 				return
 			}
+			// Delete returned: whatever generation the key had is deleted (or there was none).
+			s.live[ki].Store(0)
 		} else {
 			nextTag++
 			tag := byte(1 + nextTag%250)
@@ -338,23 +438,31 @@ func (s *stressState) creator() {
 			}
 			s.tags[key][tag] = true
 			s.mu.Unlock()
-			f, err := s.st.Create(key, uint64(c.BlobSize))
+			f, err := s.st.Create(key, uint64(s.size))
 			switch classify(err) {
 			case eExist:
 				// still there: refresh its LRU position instead
 				s.st.Open(key)
 			case eNone:
-				payload := make([]byte, c.BlobSize)
-				for i := range payload {
-					payload[i] = tag
+				// Create returned. Nobody else creates or deletes, so every key that Has reports
+				// missing now lost its generation to this call's evictions: publish that.
+				for j := 0; j < c.Keys; j++ {
+					if j == ki {
+						continue
+					}
+					if in, _ := s.st.Has(fmt.Sprintf("k%d", j)); !in {
+						s.live[j].Store(0)
+					}
 				}
-				half := c.BlobSize / 2
+				s.live[ki].Store(int32(tag)) // before MarkComplete: not yet visible to the complete-only view
+				payload := bytes.Repeat([]byte{tag}, s.size)
+				half := s.size / 2
 				if n, err := f.Write(payload[:half]); n != half || err != nil {
 					s.violation("live handle: Write byte count differs from the file model (creator round %d: incomplete blob %s: n=%d err=%v, want %d)", round, key, n, err, half)
 					return
 				}
-				if n, err := f.WriteAt(payload[half:], int64(half)); n != c.BlobSize-half || err != nil {
-					s.violation("live handle: WriteAt byte count differs from the file model (creator round %d: incomplete blob %s: n=%d err=%v, want %d)", round, key, n, err, c.BlobSize-half)
+				if n, err := f.WriteAt(payload[half:], int64(half)); n != s.size-half || err != nil {
+					s.violation("live handle: WriteAt byte count differs from the file model (creator round %d: incomplete blob %s: n=%d err=%v, want %d)", round, key, n, err, s.size-half)
 					return
 				}
 				if err := s.st.MarkComplete(key); err != nil {
@@ -362,7 +470,7 @@ func (s *stressState) creator() {
 					return
 				}
 			default:
-				s.violation("Create result differs from the model (creator round %d: Create(%s, %d) failed with %v although every other blob is complete and evictable; capacity %d)", round, key, c.BlobSize, err, c.Fit*c.BlobSize)
+				s.violation("Create result differs from the model (creator round %d: Create(%s, %d) failed with %v although every other blob is complete and evictable; capacity %d)", round, key, s.size, err, c.Fit*s.size)
 				return
 			}
 		}
@@ -390,11 +498,19 @@ func runStress(c StressCase) pbt.Verdict {
 			return pbt.Verdict{Discard: true}
 		}
 	}
-	st, err := memory.NewStore(&memory.Config{GOMEMLIMITBytes: math.MaxInt64, CapacityBytes: uint64(c.Fit * c.BlobSize)}, tally.NoopScope)
+	scale := c.Scale
+	if scale == 0 {
+		scale = 1
+	}
+	if scale < 1 || scale > 4096 || c.BlobSize*scale > 1<<20 {
+		return pbt.Verdict{Discard: true}
+	}
+	size := c.BlobSize * scale
+	st, err := memory.NewStore(&memory.Config{GOMEMLIMITBytes: math.MaxInt64, CapacityBytes: uint64(c.Fit * size)}, tally.NoopScope)
 	if err != nil {
 		return pbt.Verdict{Discard: true}
 	}
-	s := &stressState{c: c, st: st, stop: make(chan struct{}), tags: map[string]map[byte]bool{}}
+	s := &stressState{c: c, st: st, stop: make(chan struct{}), tags: map[string]map[byte]bool{}, scale: scale, size: size, live: make([]atomic.Int32, c.Keys)}
 	var wg sync.WaitGroup
 	spawn := func(name string, fn func()) {
 		wg.Add(1)
@@ -441,6 +557,15 @@ func runStress(c StressCase) pbt.Verdict {
 	}
 	if s.readsOK.Load() > 0 {
 		cl = append(cl, "reads-delivered-bytes")
+	}
+	if s.goneFailedCleanly.Load() > 0 {
+		cl = append(cl, "op-started-after-eviction-was-published-failed-cleanly")
+	}
+	if s.heldChecked.Load() > 0 {
+		cl = append(cl, "kept-live-handle-checked-after-its-blob-vanished")
+	}
+	if scale > 1 {
+		cl = append(cl, "large-blobs-long-copies")
 	}
 	return pbt.OK(s.sawEvictionAfterRead.Load() > 0 && s.staleAfterRecreate.Load() > 0, cl...)
 }
